@@ -2,33 +2,61 @@
 
 Validity predicates evaluated after EVERY prefix of a generated program (each prefix is its own program on a
 fresh engine), plus step relations between consecutive prefixes (unitary -> purity, passive -> total photon
-number, loss -> n' = T n, trace only lost through truncation).  No reference simulator is involved.
+number, loss -> n' = T n, trace only lost through truncation, never through a measurement).  No reference simulator is involved.
+
+Sub-checks: ps_physical (gaussian + bosonic), fock_physical (bounded-photon Fock preparations + gates), fock_prep_measure (Fock-basis
+preparations on mode subsets, measurements, cat / GKP, strong gates, reduced states), bosonic_nongauss (cat / GKP / Fock in the
+bosonic simulator with measurements and measurement-based squeezing).
 """
 from __future__ import annotations
 
 import numpy as np
 from hypothesis import strategies as st
 
-from vf import fockref, gen, refsim, sfrun
+from vf import fockref, gen, refsim, sfrun, spec
 from vf.core import Sub
-from vf.props import c01
 
-RULE = ("programs from the C01 generators (phase space: 1..4 modes over the Gaussian alphabet incl. thermal loss; Fock: "
-        "bounded-photon Fock/Ket preparations then gates/channels, 1..3 modes, pure and mixed), every prefix checked; "
+RULE = ("phase space (gaussian + bosonic): 1..4 modes, programs over the Gaussian alphabet incl. thermal loss, plus one matrix-parametrised "
+        "operation (native Gaussian(V, r) on a mode subset in any order, decomposed Gaussian / Interferometer / GaussianTransform, lossy "
+        "PassiveChannel, measurement-based squeezing) and homodyne / heterodyne / threshold measurements with sampled and post-selected "
+        "outcomes; Fock: bounded-photon Fock preparations then gates/channels (1..3 modes, pure and mixed), and programs with Ket / "
+        "DensityMatrix on mode subsets in any order, Fock / homodyne measurements, cat / GKP preparations, strong gates, reduced-state requests; "
+        "bosonic non-Gaussian preparations followed by gates, measurements and measurement-based squeezing; every prefix checked; "
         "non-trivial = >=3 commands on >=2 modes with at least one non-passive and one two-mode operation")
 ASSUMPTIONS = [
     "TensorFlow backend not exercised (not installed)",
     "tolerances: symmetry/hermiticity 1e-10, eigenvalues >= -1e-9*(1+scale), trace <= 1+1e-9, weights sum 1e-9; "
     "conservation laws 1e-9 relative in phase space; on the Fock backend exact (1e-10) only while the state is supported "
-    "below the cutoff (tracked from the generated preparations), otherwise 1e-6 + 20*(trace lost)",
-    "bosonic multi-weight states: the uncertainty relation is checked on the total covariance matrix (necessary condition)",
+    "below the cutoff (tracked from the generated preparations: sum of the photons every preparation put in), otherwise 1e-6 + 20*(trace lost)",
+    "bosonic multi-weight states: the uncertainty relation is checked on the total covariance matrix (necessary condition); not at all for "
+    "real-representation cat states truncated at ampl_cutoff >= 1e-2 (the caller asked for an approximation that is no state: min eig -0.5)",
+    "operations a simulator's compiler refuses (gaussian: MSgate; bosonic: sMZgate, Interferometer, GaussianTransform, PassiveChannel) are "
+    "left out of the program given to that simulator",
+    "PassiveChannel(T) with singular values <= 1 is a loss ('loss never increases the total mean photon number'); Interferometer is a passive "
+    "unitary, GaussianTransform a unitary",
+    "measurements: the conditional state is renormalised, so a measurement never lowers the trace (trace is lost through truncation only); "
+    "post-selection on an outcome of probability < 1e-8 (Fock) / at the origin for odd states (bosonic) is outside the domain; the Fock "
+    "simulator's ZeroDivisionError('Measurement has zero probability') for a post-selected outcome is a rejection",
+    "a reduced state requested with eng.run(prog, modes=[...]) has the trace of the full state (1e-9)",
+    "sampled outcomes: numpy's global generator is seeded with an integer drawn into the case before every run",
 ]
 REQUIRED_LABELS = {"all": ["backend:gaussian", "backend:bosonic", "backend:fock", "step:passive", "step:unitary", "step:loss",
                            "fock_pure", "fock_mixed", "step:passive_exact", "step:postselected_homodyne", "step:postselected_heterodyne",
-                           "prep:Catstate_opts", "prep:GKP_opts"]}
+                           "prep:Catstate_opts", "prep:GKP_opts",
+                           # input classes added by the generator audit (>= 30 cases per quick run at seeds 1..5)
+                           "op:Gaussian_native", "op:MSgate_avg", "op:PassiveChannel", "step:sampled_homodyne", "step:sampled_heterodyne",
+                           "step:threshold", "step:measure_exact"]}
 
-PASSIVE = {"Rgate", "BSgate", "MZgate", "sMZgate", "Fouriergate"}
-UNITARY = PASSIVE | {"Dgate", "Sgate", "S2gate", "Xgate", "Zgate", "Pgate", "CXgate", "CZgate", "Kgate", "CKgate", "Vgate"}
+# own copies (not imported from another property module: those are edited independently)
+ALPH_PS = ["Dgate", "Sgate", "Rgate", "BSgate", "S2gate", "MZgate", "Xgate", "Zgate", "Pgate", "CXgate", "CZgate",
+           "Fouriergate", "LossChannel", "Vacuum", "Coherent", "Squeezed", "DisplacedSqueezed", "Thermal", "ThermalLossChannel", "sMZgate"]
+HBARS = [2.0, 2.0, 0.5, 1.0, 3.3]
+
+# refused by the compiler of the simulator (CircuitError), observed on the unchanged tree
+PS_UNSUPPORTED = {"gaussian": {"MSgate"}, "bosonic": {"sMZgate", "Interferometer", "GaussianTransform", "PassiveChannel"}}
+
+PASSIVE = {"Rgate", "BSgate", "MZgate", "sMZgate", "Fouriergate", "Interferometer"}
+UNITARY = PASSIVE | {"Dgate", "Sgate", "S2gate", "Xgate", "Zgate", "Pgate", "CXgate", "CZgate", "Kgate", "CKgate", "Vgate", "GaussianTransform"}
 DIAGONAL = {"Rgate", "Kgate", "CKgate", "Fouriergate"}
 
 
@@ -53,31 +81,135 @@ def _nontrivial(n, ops_):
 
 # ---------------------------------------------------------------------------------------------
 @st.composite
+def passive_channel_op(draw, n):
+    """PassiveChannel(T) on 1..n modes listed in any order; T = U diag(s) W with singular values s in [0, 1] (a lossy interferometer)"""
+    k = draw(st.integers(1, n))
+    modes = list(draw(st.permutations(list(range(n))))[:k])
+    U, W = draw(gen.unitary(k))[1], draw(gen.unitary(k))[1]
+    s = [draw(st.one_of(st.sampled_from([1.0, 0.0, 0.5]), gen.fl(0.0, 1.0))) for _ in range(k)]
+    return ["PassiveChannel", [spec.enc_matrix(np.asarray(U, complex) @ np.diag(s) @ W)], modes, {}]
+
+
+@st.composite
+def msgate_op(draw, n, single_shot=True):
+    """measurement-based squeezing (bosonic only): target squeezing, ancilla squeezing >= 0 (10 = the default), detection efficiency in (0, 1]"""
+    r = draw(gen.real(-1.0, 1.0, (0.0, 1e-9)))
+    r_anc = draw(st.one_of(st.sampled_from([10.0, 0.0, 1.0]), gen.fl(0.0, 3.0)))
+    eta = draw(st.one_of(st.sampled_from([1.0, 0.5]), gen.fl(0.2, 1.0)))
+    avg = True if not single_shot else draw(st.sampled_from([True, True, False]))
+    return ["MSgate", [r, draw(gen.angle()), r_anc, eta, avg], [draw(st.integers(0, n - 1))], {}]
+
+
+@st.composite
+def ps_measure_op(draw, n, hbar):
+    """homodyne / heterodyne with and without post-selection, threshold detection of one or two modes"""
+    m = draw(st.integers(0, n - 1))
+    kind = draw(st.sampled_from(["hom_sel", "het_sel", "hom", "het", "thr", "hom_sel", "het_sel"]))
+    if kind == "hom_sel":
+        return ["MeasureHomodyne", [draw(gen.angle())], [m], {"select": draw(gen.fl(-1.5, 1.5)) * np.sqrt(hbar / 2)}]
+    if kind == "het_sel":
+        return ["MeasureHeterodyne", [], [m], {"select": {"re": draw(gen.fl(-1.0, 1.0)), "im": draw(gen.fl(-1.0, 1.0))}}]
+    if kind == "hom":
+        return ["MeasureHomodyne", [draw(gen.angle())], [m], {}]
+    if kind == "het":
+        return ["MeasureHeterodyne", [], [m], {}]
+    modes = list(draw(st.permutations(list(range(n))))[:draw(st.integers(1, min(2, n)))])
+    return ["MeasureThreshold", [], modes, {}]
+
+
+@st.composite
+def ps_measure_ops(draw, n, hbar):
+    """one measurement. AUDIT-FINDING threshold-vacuum-crash: the bosonic threshold detector draws its outcome with
+    np.random.choice(p=[F, 1 - F]); for a mode that is numerically in the vacuum F exceeds 1 by more than the 1e-15 the code allows for
+    (1 + 2e-13 with the cancelling weights of cat x Fock states, a few ulp are enough) and numpy raises ValueError -> every threshold
+    detector is preceded by a displacement of the measured modes for now (which also makes the 'click' outcome, the only one after which
+    the bosonic simulator holds several weights, frequent)"""
+    mo = draw(ps_measure_op(n, hbar))
+    if mo[0] == "MeasureThreshold":
+        return [["Dgate", [draw(gen.fl(0.3, 1.5)), draw(gen.angle())], [m], {}] for m in mo[2]] + [mo]
+    return [mo]
+
+
+@st.composite
+def matrix_op(draw, n, hbar):
+    """one matrix-parametrised operation on k >= 2 modes listed in any order (cyclic listings of >= 3 modes included):
+    Gaussian(V, r) preparation (native and decomposed), Interferometer(U), GaussianTransform(S)"""
+    k = draw(st.integers(2, n))
+    modes = list(draw(st.permutations(list(range(n))))[:k])
+    what = draw(st.sampled_from(["Gaussian", "Interferometer", "Interferometer", "GaussianTransform", "GaussianTransform"]))
+    if what == "Gaussian":
+        _, V = draw(gen.covariance(k, hbar, ["pure_generic", "mixed_generic", "mixed_diag", "pure_blockdiag"]))
+        r = [draw(gen.fl(-1.0, 1.0)) * np.sqrt(hbar / 2) for _ in range(2 * k)]
+        return ["Gaussian", [spec.enc_matrix(V), spec.enc_vec(r)], modes, {"kw": {"decomp": True}}]
+    if what == "Interferometer":
+        return ["Interferometer", [spec.enc_matrix(draw(gen.unitary(k, ["haar"]))[1])], modes, {}]
+    return ["GaussianTransform", [spec.enc_matrix(draw(gen.symplectic(k, 0.5, ["generic"]))[2])], modes, {}]
+
+
+@st.composite
+def gaussian_native_op(draw, n, hbar):
+    """Gaussian(V, r, decomp=False) on 1..n modes listed in any order: the backends overwrite the blocks of the listed modes in place
+    and have to cut every correlation with the rest of the register"""
+    k = draw(st.integers(1, n))
+    modes = list(draw(st.permutations(list(range(n))))[:k])
+    _, V = draw(gen.covariance(k, hbar, ["pure_generic", "mixed_generic", "pure_diag", "thermal", "pure_blockdiag"]))
+    r = [draw(gen.fl(-1.0, 1.0)) * np.sqrt(hbar / 2) for _ in range(2 * k)]
+    return ["Gaussian", [spec.enc_matrix(V), spec.enc_vec(r)], modes, {"kw": {"decomp": False}}]
+
+
+@st.composite
 def ps_case(draw):
     n = draw(st.integers(1, 4))
-    hbar = draw(st.sampled_from(c01.HBARS))
-    ops_ = draw(gen.op_list(n, c01.ALPH_G2, "ps", 2, 8))
-    # post-selected measurements: the conditional state left behind has to be physical too
-    for _ in range(draw(st.sampled_from([0, 0, 1, 2]))):
-        m = draw(st.integers(0, n - 1))
-        if draw(st.booleans()):
-            mo = ["MeasureHomodyne", [draw(gen.angle())], [m], {"select": draw(gen.fl(-1.5, 1.5)) * np.sqrt(hbar / 2)}]
-        else:
-            mo = ["MeasureHeterodyne", [], [m], {"select": {"re": draw(gen.fl(-1.0, 1.0)), "im": draw(gen.fl(-1.0, 1.0))}}]
-        ops_.insert(draw(st.integers(1, len(ops_))), mo)
-    return {"n": n, "hbar": hbar, "ops": ops_}
+    hbar = draw(st.sampled_from(HBARS))
+    # units: lists of commands that stay adjacent whatever is inserted later
+    units = [[o] for o in draw(gen.op_list(n, ALPH_PS, "ps", 2, 8))]
+    # matrix-parametrised operations on mode subsets listed in any order: native / decomposed Gaussian(V, r), Interferometer,
+    # GaussianTransform, lossy PassiveChannel (Gaussian backend only), measurement-based squeezing (bosonic only)
+    extra = draw(st.sampled_from(["", "matrix", "matrix", "gaussian_native", "gaussian_native", "passive_channel", "msgate", "msgate"]))
+    if extra == "matrix" and n >= 2:
+        units.insert(draw(st.integers(0, len(units))), [draw(matrix_op(n, hbar))])
+    elif extra == "gaussian_native":
+        units.insert(draw(st.integers(min(2, len(units)), len(units))), [draw(gaussian_native_op(n, hbar))])
+    elif extra == "passive_channel":
+        units.insert(draw(st.integers(0, len(units))), [draw(passive_channel_op(n))])
+    elif extra == "msgate":
+        units.insert(draw(st.integers(0, len(units))), [draw(msgate_op(n))])
+    # measurements: the conditional state left behind has to be physical too (post-selected and sampled outcomes)
+    for _ in range(draw(st.sampled_from([0, 1, 1, 2, 2]))):
+        units.insert(draw(st.integers(1, len(units))), draw(ps_measure_ops(n, hbar)))
+    ops_ = [o for u in units for o in u]
+    return {"n": n, "hbar": hbar, "ops": ops_, "seed": draw(st.integers(0, 2 ** 16))}
+
+
+def _op_label(op):
+    """label of the input class an operation belongs to (None for the plain alphabet)"""
+    name, flags = op[0], (op[3] if len(op) > 3 else {})
+    if name == "Gaussian":
+        return "op:Gaussian_decomp" if flags.get("kw", {}).get("decomp", True) else "op:Gaussian_native"
+    if name in ("Interferometer", "GaussianTransform", "PassiveChannel"):
+        return "op:" + name
+    if name == "MSgate":
+        return "op:MSgate_avg" if op[1][4] else "op:MSgate_single_shot"
+    if name in ("MeasureHomodyne", "MeasureHeterodyne"):
+        return "step:%s_%s" % ("postselected" if flags.get("select") is not None else "sampled", name[7:].lower())
+    if name == "MeasureThreshold":
+        return "step:threshold"
+    return None
 
 
 def check_ps(ctx, case):
     n, hbar, ops_ = case["n"], case["hbar"], case["ops"]
+    seed = case.get("seed", 0)
     labels = set()
     ran = False
     for be in ("gaussian", "bosonic"):
         prev = None
+        # each simulator runs the program without the operations its compiler refuses (a refusal would end the case for that simulator)
+        ops_ = [o for o in case["ops"] if o[0] not in PS_UNSUPPORTED[be]]
         for k in range(1, len(ops_) + 1):
             op = ops_[k - 1]
             try:
-                st_ = sfrun.run(be, n, ops_[:k], hbar).state
+                st_ = sfrun.run(be, n, ops_[:k], hbar, seed=seed).state
             except sfrun.Rejected:
                 labels.add("rejected:" + be)
                 break
@@ -85,9 +217,13 @@ def check_ps(ctx, case):
                 return ctx.crash(exc, be + "." + op[0])
             ran = True
             labels.add("backend:" + be)
-            if op[0].startswith("Measure"):
-                labels.add("step:postselected_" + op[0][7:].lower())
+            if _op_label(op):
+                labels.add(_op_label(op))
+                if op[0] in ("MSgate", "MeasureThreshold", "PassiveChannel"):
+                    labels.add(_op_label(op) + ":" + be)
             mu, V, info = sfrun.moments_of(st_, be, hbar)
+            if info.get("weights", 1) > 1:
+                labels.add("bosonic_multiweight_after_threshold")
             sc = 1.0 + float(np.max(np.abs(V))) / (hbar / 2)
             raw = np.array(st_.cov() if be == "gaussian" else np.asarray(st_.covs())[0])
             if float(np.max(np.abs(raw - raw.T))) > 1e-10 * sc * hbar:
@@ -119,14 +255,34 @@ def check_ps(ctx, case):
                         return ctx.fail("%s.loss_photon_number.%s" % (be, op[0]), "mode %d photon number %.10g -> %.10g, expected T n + (1-T) nbar = %.10g" % (m, a, b, T * a + (1 - T) * nb))
                     if op[0] == "LossChannel" and total_photons(mu, V, hbar) > total_photons(pmu, pV, hbar) + 1e-9:
                         return ctx.fail("%s.loss_increased_photons" % be, "total photon number increased under loss")
+                if op[0] == "PassiveChannel":
+                    # a lossy interferometer (singular values <= 1): the total mean photon number cannot grow
+                    a, b = total_photons(pmu, pV, hbar), total_photons(mu, V, hbar)
+                    if b > a + 1e-9 * (1 + abs(a)):
+                        return ctx.fail("%s.loss_increased_photons.PassiveChannel" % be, "total mean photon number %.12g -> %.12g under a passive channel with singular values <= 1" % (a, b))
             prev = (mu, V)
-    ctx.note(case, nontrivial=ran and _nontrivial(n, ops_), labels=sorted(labels))
+    ctx.note(case, nontrivial=ran and _nontrivial(n, case["ops"]), labels=sorted(labels))
     return None
 
 
 # ---------------------------------------------------------------------------------------------
 F_ALPH = ["Rgate", "BSgate", "MZgate", "Kgate", "CKgate", "LossChannel", "Fouriergate", "sMZgate",
-          "Dgate", "Sgate", "S2gate", "Xgate", "Pgate", "CXgate", "Vgate", "Coherent", "Thermal", "Squeezed", "Vacuum", "Fock"]
+          "Dgate", "Sgate", "S2gate", "Xgate", "Pgate", "CXgate", "Vgate", "Coherent", "Thermal", "Squeezed", "Vacuum", "Fock",
+          "Zgate", "CZgate", "DisplacedSqueezed"]
+F_BOUNDED = ["Rgate", "BSgate", "MZgate", "Kgate", "CKgate", "LossChannel", "LossChannel", "Fouriergate", "sMZgate"]
+# operations that cannot raise the total photon number of the support (preparations are accounted for separately)
+F_SIMPLE = PASSIVE | DIAGONAL | {"Fock", "LossChannel", "Vacuum", "Ket", "DensityMatrix", "MeasureFock", "MeasureHomodyne"}
+
+
+def _fix_fock_ops(ops_, D):
+    for s in ops_:
+        if s[0] == "Fock":
+            s[1][0] = min(s[1][0], D - 1)
+        # AUDIT-FINDING displaced-squeezed-norm: the Fock-basis displaced squeezed state is super-normalised (norm^2 up to 1 + 1e-3)
+        # for a small but non-zero squeezing 1e-8 < |r_s| < ~1e-2 (regulariser 1e-10 in ops.displacedSqueezed) -> keep |r_s| >= 0.05 or 0
+        if s[0] == "DisplacedSqueezed" and 0 < abs(s[1][2]) < 0.05:
+            s[1][2] = 0.05 if s[1][2] > 0 else -0.05
+    return ops_
 
 
 @st.composite
@@ -149,75 +305,240 @@ def fock_case(draw):
     if full:
         preps = list(draw(st.permutations(preps)))
         preps = [[p_[0], p_[1], [m], {}] for m, p_ in enumerate(preps)]
-        ops_ = draw(gen.op_list(n, ["Rgate", "BSgate", "MZgate", "Kgate", "CKgate", "LossChannel", "LossChannel", "Fouriergate", "sMZgate"], "fock", 2, 6, no_mz_dagger=True))
+        ops_ = draw(gen.op_list(n, F_BOUNDED, "fock", 2, 6, no_mz_dagger=True))
     else:
         ops_ = draw(gen.op_list(n, F_ALPH, "fock", 2, 6, no_mz_dagger=True))
-    for s in ops_:
-        if s[0] == "Fock":
-            s[1][0] = min(s[1][0], D - 1)
-    return {"n": n, "cutoff": D, "pure": pure, "ops": preps + ops_}
+    return {"n": n, "cutoff": D, "pure": pure, "ops": preps + _fix_fock_ops(ops_, D)}
+
+
+# --- Fock-basis preparations on several modes, measurements, strong parameters -----------------------------------------------------
+@st.composite
+def _amps(draw, k, D, budget):
+    """sparse k-mode ket: 1..3 distinct basis states with at most `budget` photons in total, complex amplitudes (normalised when built)"""
+    out, seen = [], set()
+    for _ in range(draw(st.integers(1, 3))):
+        left, idx = budget, []
+        for _m in range(k):
+            idx.append(draw(st.integers(0, min(left, D - 1))))
+            left -= idx[-1]
+        idx = list(draw(st.permutations(idx)))
+        if tuple(idx) in seen:
+            continue
+        seen.add(tuple(idx))
+        re, im = draw(gen.fl(-1.0, 1.0)), draw(gen.fl(-1.0, 1.0))
+        if abs(re) + abs(im) < 1e-3:
+            re = 1.0
+        out.append([idx, re, im])
+    return out
+
+
+@st.composite
+def fock_prep_op(draw, n, D, budget, whole_ket=False):
+    """Ket / DensityMatrix on 1..n modes listed in any order (3-cycles included); whole_ket: a Ket on the whole register, the only
+    preparation after which a multi-mode simulation stays in the pure representation"""
+    k = n if whole_ket else draw(st.sampled_from([1, 2, 2, 3])) if n == 3 else draw(st.integers(1, n))
+    modes = list(draw(st.permutations(list(range(n))))[:k])
+    if whole_ket or draw(st.booleans()):
+        return ["Ket", [{"amps": draw(_amps(k, D, budget))}], modes, {}]
+    mix = [[draw(gen.fl(0.1, 1.0)), draw(_amps(k, D, budget))] for _ in range(draw(st.integers(1, 2)))]
+    return ["DensityMatrix", [{"mix": mix}], modes, {}]
+
+
+@st.composite
+def fock_measure_op(draw, n, D):
+    """MeasureFock on 1..n modes in any order (sampled, or post-selected on small photon numbers), MeasureHomodyne (sampled / post-selected)"""
+    kind = draw(st.sampled_from((["fock3", "fock3"] if n == 3 else []) + ["fock", "fock_sel", "fock_sel", "hom_sel", "hom_sel", "hom"]))
+    if kind == "fock3":
+        # all three modes in a cyclic order (a permutation that is not its own inverse), outcome sampled
+        return ["MeasureFock", [], draw(st.sampled_from([[1, 2, 0], [2, 0, 1]])), {}]
+    if kind.startswith("fock"):
+        modes = list(draw(st.permutations(list(range(n))))[:draw(st.integers(1, n))])
+        if kind == "fock":
+            return ["MeasureFock", [], modes, {}]
+        return ["MeasureFock", [], modes, {"kw": {"select": [draw(st.sampled_from([0, 0, 1, 1, 2, D - 1])) for _ in modes]}}]
+    m = draw(st.integers(0, n - 1))
+    if kind == "hom_sel":
+        return ["MeasureHomodyne", [draw(gen.angle())], [m], {"select": draw(st.sampled_from([1.0, -1.0])) * draw(gen.fl(0.2, 1.5))}]
+    return ["MeasureHomodyne", [draw(gen.angle())], [m], {}]
+
+
+@st.composite
+def fock2_case(draw):
+    flavour = draw(st.sampled_from(["ket_dm", "ket_dm", "measure", "measure", "measure", "cat_gkp", "cat_gkp", "hot"]))
+    n = draw(st.sampled_from([1, 2, 3, 3, 3] if flavour == "ket_dm" else [1, 2, 3, 3] if flavour == "measure" else [1, 2, 2, 3]))
+    D = draw(st.integers(4, 6 if n < 3 else 5))
+    pure = draw(st.booleans())
+    budget = D - 1
+    ops_ = []
+    if flavour == "cat_gkp":
+        for m in range(n):
+            if draw(st.booleans()):
+                # an odd cat (p = 1) of zero amplitude does not exist: amplitudes from 0.3
+                ops_.append(["Catstate", [draw(gen.fl(0.3, 1.2)), draw(gen.angle()), draw(st.sampled_from([1, 0, 1, 0.5]))], [m], {}])
+            else:
+                ops_.append(["GKP", [], [m], {"kw": {"state": [draw(gen.angle()), draw(gen.angle())], "epsilon": draw(st.sampled_from([0.2, 0.35, 0.5, 1.0])),
+                                                     "ampl_cutoff": draw(st.sampled_from([1e-12, 1e-3]))}}])
+        ops_ += draw(gen.op_list(n, F_BOUNDED + ["Dgate", "Sgate"], "fock", 1, 3, no_mz_dagger=True))
+    elif flavour == "hot":
+        # strong gates: the truncation acts on every step, only the unconditional predicates (hermitian, PSD, trace <= 1) can bite
+        ops_ += [["Fock", [draw(st.integers(0, D - 1))], [m], {}] for m in range(n)]
+        ops_ += draw(gen.op_list(n, [a for a in F_ALPH if a != "Vgate"], "ps", 2, 4, no_mz_dagger=True))
+    else:
+        # photon-number-bounded programs: the exact step relations apply throughout
+        first = draw(st.sampled_from(["any", "whole_ket", "fock"] if flavour == "measure" else ["any", "any", "whole_ket"]))
+        ops_.append(["Fock", [budget], [draw(st.integers(0, n - 1))], {}] if first == "fock" else draw(fock_prep_op(n, D, budget, whole_ket=first == "whole_ket")))
+        body = draw(gen.op_list(n, F_BOUNDED, "fock", 1, 4, no_mz_dagger=True))
+        for _ in range(draw(st.integers(1, 2))):
+            extra = draw(fock_measure_op(n, D)) if flavour == "measure" or draw(st.integers(0, 3)) == 0 else draw(fock_prep_op(n, D, 1))
+            body.insert(draw(st.integers(1, len(body))), extra)
+        ops_ += body
+    # reduced-state request eng.run(prog, modes=red): mostly at least two modes in a non-ascending order (rotations = 3-cycles, reversals)
+    red = None
+    if draw(st.integers(0, 3)) > 0:
+        red = sorted(draw(st.permutations(list(range(n))))[:draw(st.integers(min(2, n), n))])
+        how = draw(st.sampled_from(["rotate", "rotate", "reverse", "sorted"]))
+        red = red[1:] + red[:1] if how == "rotate" else red[::-1] if how == "reverse" else red
+    return {"n": n, "cutoff": D, "pure": pure, "ops": _fix_fock_ops(ops_, D), "seed": draw(st.integers(0, 2 ** 16)), "red": red, "flavour": flavour}
+
+
+def _ket_tensor(amps, k, D):
+    psi = np.zeros((D,) * k, dtype=complex)
+    for idx, re, im in amps:
+        psi[tuple(idx)] += complex(re, im)
+    return psi / np.sqrt(float(np.sum(np.abs(psi) ** 2)))
+
+
+def _prep_photons(op):
+    """largest total photon number in the support of a Fock-basis preparation"""
+    if op[0] == "Fock":
+        return op[1][0]
+    if op[0] == "Ket":
+        return max(sum(a[0]) for a in op[1][0]["amps"])
+    if op[0] == "DensityMatrix":
+        return max(sum(a[0]) for _p, amps in op[1][0]["mix"] for a in amps)
+    return 0
+
+
+def _fock_program(n, oplist, D):
+    """like spec.build_program, plus Ket / DensityMatrix given as tensors with one (ket) or two (density matrix) indices per mode"""
+    import strawberryfields as sf
+    from strawberryfields import ops
+
+    prog = sf.Program(n)
+    with prog.context as q:
+        for o in oplist:
+            nm, params, modes = o[0], o[1], o[2]
+            if nm == "Ket":
+                op = ops.Ket(_ket_tensor(params[0]["amps"], len(modes), D))
+            elif nm == "DensityMatrix":
+                w = np.array([c[0] for c in params[0]["mix"]], float)
+                op = ops.DensityMatrix(sum(wi / w.sum() * fockref.ket_to_dm(_ket_tensor(c[1], len(modes), D)) for wi, c in zip(w, params[0]["mix"])))
+            else:
+                op = spec.make_op(ops, nm, params, o[3] if len(o) > 3 else {})
+            regs = tuple(q[m] for m in modes)
+            op | (regs if len(regs) != 1 else regs[0])  # pylint: disable=expression-not-assigned
+    return prog
+
+
+def _run_fock(case, k, run_kwargs=None):
+    with sfrun.HbarCtx(2.0):
+        prog = _fock_program(case["n"], case["ops"][:k], case["cutoff"])
+    return sfrun.run("fock", case["n"], None, 2.0, case["cutoff"], case["pure"], seed=case.get("seed", 0), prog=prog, run_kwargs=run_kwargs).state
+
+
+def _fock_predicates(ctx, st_, n, name, where):
+    """hermitian, PSD, trace <= 1 (and ket norm <= 1); returns (failure | None, trace, purity, mean photons, density tensor)"""
+    data = np.asarray(st_.data)
+    if data.ndim == n:
+        nrm = float(np.sum(np.abs(data) ** 2))
+        if nrm > 1 + 1e-9:
+            return ctx.fail("fock.ket_norm_gt_1.%s" % name, "ket norm^2 %.12f %s" % (nrm, where)), 0, 0, 0, None
+    rho = fockref.state_dm(st_)
+    M = fockref.dm_to_matrix(rho, n)
+    if not np.all(np.isfinite(M)):
+        return ctx.fail("fock.nonfinite_state.%s" % name, where), 0, 0, 0, None
+    if float(np.max(np.abs(M - M.conj().T))) > 1e-10:
+        return ctx.fail("fock.not_hermitian.%s" % name, where), 0, 0, 0, None
+    tr = float(np.real(np.trace(M)))
+    if tr > 1 + 1e-9:
+        return ctx.fail("fock.trace_gt_1.%s" % name, "trace %.12f %s" % (tr, where)), 0, 0, 0, None
+    ev = float(np.min(np.linalg.eigvalsh((M + M.conj().T) / 2)))
+    if ev < -1e-9:
+        return ctx.fail("fock.not_psd.%s" % name, "min eigenvalue %.3g %s" % (ev, where)), 0, 0, 0, None
+    pur = float(np.real(np.trace(M @ M))) / tr ** 2 if tr > 1e-12 else 1.0
+    nph = fockref.mean_photons(rho, n) if tr > 1e-12 else [0.0] * n
+    return None, tr, pur, nph, rho
 
 
 def check_fock(ctx, case):
     n, D, pure, ops_ = case["n"], case["cutoff"], case["pure"], case["ops"]
     labels = {"backend:fock", "fock_pure" if pure else "fock_mixed"}
-    prev = None
-    bound = 0  # upper bound on the total photon number of the support; None = unbounded (truncation may act)
-    perm = {m: 0 for m in range(n)}
+    prev = prho = None
+    done = 0
     for k in range(1, len(ops_) + 1):
         op = ops_[k - 1]
         name = op[0]
+        flags = op[3] if len(op) > 3 else {}
+        sel = flags.get("kw", {}).get("select") if name == "MeasureFock" else None
+        if sel is not None and prho is not None:
+            # conditioning on an outcome that the state before the measurement excludes (probability zero up to rounding, e.g. a coincidence
+            # behind a balanced beamsplitter) is outside the domain: the renormalised result would be rounding noise
+            pr = fockref.probs(prho, n)
+            pr = float(np.sum(pr[tuple(sel[op[2].index(m)] if m in op[2] else slice(None) for m in range(n))]))
+            if pr < 1e-8:
+                labels.add("rejected:negligible_probability_outcome")
+                break
         try:
-            st_ = sfrun.run("fock", n, ops_[:k], 2.0, D, pure).state
+            st_ = _run_fock(case, k)
         except sfrun.Rejected:
             labels.add("rejected:fock")
             break
+        except ZeroDivisionError as exc:
+            # the simulator's documented refusal of a post-selection on an outcome of probability zero
+            if sel is not None and "zero probability" in str(exc):
+                labels.add("rejected:zero_probability_outcome")
+                break
+            return ctx.crash(exc, "fock." + name)
         except Exception as exc:  # pylint: disable=broad-except
             return ctx.crash(exc, "fock." + name)
-        data = np.asarray(st_.data)
-        if data.ndim == n:
-            nrm = float(np.sum(np.abs(data) ** 2))
-            if nrm > 1 + 1e-9:
-                return ctx.fail("fock.ket_norm_gt_1.%s" % name, "ket norm^2 %.12f after prefix %d" % (nrm, k))
-        rho = fockref.state_dm(st_)
-        M = fockref.dm_to_matrix(rho, n)
-        if float(np.max(np.abs(M - M.conj().T))) > 1e-10:
-            return ctx.fail("fock.not_hermitian.%s" % name, "after prefix %d" % k)
-        tr = float(np.real(np.trace(M)))
-        if tr > 1 + 1e-9:
-            return ctx.fail("fock.trace_gt_1.%s" % name, "trace %.12f after prefix %d" % (tr, k))
-        ev = float(np.min(np.linalg.eigvalsh((M + M.conj().T) / 2)))
-        if ev < -1e-9:
-            return ctx.fail("fock.not_psd.%s" % name, "min eigenvalue %.3g after prefix %d" % (ev, k))
-        pur = float(np.real(np.trace(M @ M))) / tr ** 2 if tr > 1e-12 else 1.0
-        nph = fockref.mean_photons(rho, n) if tr > 1e-12 else [0.0] * n
-        # support tracking
-        if name == "Fock":
-            perm[op[2][0]] = op[1][0]
-            if bound is not None:
-                bound = None if any(s[0] not in ("Fock",) for s in ops_[:k - 1] if op[2][0] in s[2] and s[0] not in PASSIVE | DIAGONAL) else bound
-            # recompute a simple bound: valid only while all operations so far are Fock preps / passive / diagonal / loss / vacuum
-        simple = all(s[0] in PASSIVE | DIAGONAL | {"Fock", "LossChannel", "Vacuum"} for s in ops_[:k])
-        if simple:
-            # total photons <= sum over modes of the largest Fock number ever prepared (preps replace, passive conserve, loss lowers)
-            tot = 0
-            last = {m: 0 for m in range(n)}
-            for s in ops_[:k]:
-                if s[0] == "Fock":
-                    last[s[2][0]] = max(last[s[2][0]], s[1][0])
-            tot = sum(last.values())
-            exact = tot <= D - 1
-        else:
-            exact = False
+        done = k
+        bad, tr, pur, nph, prho = _fock_predicates(ctx, st_, n, name, "after prefix %d" % k)
+        if bad is not None:
+            return bad
+        if name in ("Ket", "DensityMatrix"):
+            labels.add("prep:%s_%s" % (name, "all_modes" if len(op[2]) == n else "subset" if len(op[2]) > 1 or n == 1 else "one_mode"))
+            if len(op[2]) >= 2 and op[2] != sorted(op[2]):
+                labels.add("prep:multimode_unsorted")
+            if k > 1:
+                labels.add("prep:fock_basis_midcircuit")
+        elif name in ("Catstate", "GKP", "DisplacedSqueezed", "Zgate", "CZgate"):
+            labels.add("fock_op:" + name)
+        elif name.startswith("Measure"):
+            labels.add("step:%s_%s" % (name, "postselected" if flags.get("select") is not None or flags.get("kw", {}).get("select") is not None else "sampled"))
+            if len(op[2]) >= 2:
+                labels.add("step:MeasureFock_multimode")
+            if list(op[2]) in ([1, 2, 0], [2, 0, 1]):
+                labels.add("step:MeasureFock_3cycle")
+            if np.asarray(st_.data).ndim == n and n >= 2:
+                labels.add("step:measure_pure_multimode")
+        # support tracking: while every operation so far is a Fock-basis preparation / passive / diagonal / loss / measurement, the total
+        # photon number of the support is at most the sum of what the preparations put in (never more than that, whatever was replaced)
+        exact = all(s[0] in F_SIMPLE for s in ops_[:k]) and sum(_prep_photons(s) for s in ops_[:k]) <= D - 1
         if prev is not None:
             ptr, ppur, pnph = prev
-            if tr > ptr + 1e-9 and name not in gen.PREPS:
+            if name.startswith("Measure"):
+                # the conditional state is renormalised: trace is lost only through truncation, never through a measurement
+                if tr < ptr - 1e-9:
+                    return ctx.fail("fock.trace_lost_in_measurement.%s" % name, "trace %.12f -> %.12f" % (ptr, tr))
+            elif tr > ptr + 1e-9 and name not in gen.PREPS and name != "GKP":
                 return ctx.fail("fock.trace_increased.%s" % name, "trace %.12f -> %.12f" % (ptr, tr))
             deficit = max(0.0, ptr - tr)
             tol = 1e-10 if exact else 1e-6 + 20 * deficit
-            if name in PASSIVE | DIAGONAL or name == "LossChannel":
+            if name in PASSIVE | DIAGONAL or name == "LossChannel" or name.startswith("Measure") or name in ("Fock", "Ket", "DensityMatrix", "Vacuum"):
                 if exact:
                     labels.add("step:passive_exact")
+                    if name.startswith("Measure"):
+                        labels.add("step:measure_exact")
                     if abs(tr - ptr) > 1e-10:
                         return ctx.fail("fock.trace_changed_without_truncation.%s" % name, "trace %.12f -> %.12f although the state is supported below the cutoff" % (ptr, tr))
             if name in UNITARY and ptr > 0.999 and tol < 1e-3:
@@ -237,7 +558,24 @@ def check_fock(ctx, case):
                 if any(abs(nph[j] - pnph[j]) > max(tol, 1e-9) * 5 for j in others):
                     return ctx.fail("fock.loss_changed_other_mode", "loss on mode %d changed another mode's photon number" % m)
         prev = (tr, pur, nph)
-    ctx.note(case, nontrivial=_nontrivial(n, ops_[n:]), labels=sorted(labels))
+    red = case.get("red")
+    if red and done == len(ops_):
+        # the same program, asking the engine for the reduced state of some modes in some order: a partial trace keeps hermiticity,
+        # positivity and the trace
+        try:
+            st_ = _run_fock(case, done, run_kwargs={"modes": list(red)})
+        except Exception as exc:  # pylint: disable=broad-except
+            return ctx.crash(exc, "fock.reduced_state")
+        labels.add("reduced_state_request")
+        if len(red) >= 2 and red != sorted(red):
+            labels.add("reduced_state_unsorted")
+        bad, tr, _pur, _nph, _rho = _fock_predicates(ctx, st_, len(red), "reduced_state", "for modes=%r" % (red,))
+        if bad is not None:
+            return bad
+        if abs(tr - prev[0]) > 1e-9:
+            return ctx.fail("fock.reduced_state_trace", "trace of the reduced state %.12f, of the full state %.12f (modes=%r)" % (tr, prev[0], red))
+    labels.add("flavour:" + case.get("flavour", "classic"))
+    ctx.note(case, nontrivial=_nontrivial(n, ops_ if "flavour" in case else ops_[n:]), labels=sorted(labels))
     return None
 
 
@@ -245,7 +583,9 @@ def check_fock(ctx, case):
 @st.composite
 def bng_case(draw):
     n = draw(st.integers(1, 2))
+    hbar = draw(st.sampled_from([2.0, 2.0, 2.0, 0.5, 3.3]))
     preps = []
+    fock_photons = 0
     for m in range(n):
         kind = draw(st.sampled_from(["Catstate", "Fock", "Squeezed", "Catstate_opts", "GKP"]))
         if kind == "Catstate":
@@ -260,63 +600,124 @@ def bng_case(draw):
             preps.append(["Catstate", [draw(gen.fl(0.4, 2.0)), draw(gen.angle()), draw(st.sampled_from([0, 1, 0.5]))], [m], {"kw": kw}])
         elif kind == "GKP":
             kw = {"state": [draw(gen.angle()), draw(gen.angle())], "epsilon": draw(st.sampled_from([0.2, 0.35, 0.5])),
-                  "ampl_cutoff": draw(st.sampled_from([1e-6, 1e-3, 1e-2])), "representation": draw(st.sampled_from(["real", "complex"]))}
+                  "ampl_cutoff": draw(st.sampled_from([1e-6, 1e-3, 1e-2])), "representation": draw(st.sampled_from(["real", "real", "real", "complex"]))}
             preps.append(["GKP", [], [m], {"kw": kw}])
         elif kind == "Fock":
             preps.append(["Fock", [draw(st.integers(1, 2 if n == 1 else 1))], [m], {}])
+            fock_photons += preps[-1][1][0]
         else:
             preps.append([kind, draw(gen.op_params(kind, "ps")), [m], {}])
     ops_ = draw(gen.op_list(n, ["Dgate", "Sgate", "Rgate", "BSgate", "LossChannel", "ThermalLossChannel", "S2gate", "MZgate"], "ps", 1, 4))
-    return {"n": n, "ops": preps + ops_}
+    # measurements (the weights are re-weighted and renormalised) and measurement-based squeezing on the non-Gaussian states. Outcomes are
+    # sampled (rejection sampling: cost ~ number of weights * sum |w|, unbounded in practice for the alternating weights ~1e3..1e6 of real
+    # cats / Fock(2) / products with Fock(1)) only for: complex cats, squeezed states, at most one GKP state, or one Fock(1) without GKP;
+    # a threshold click multiplies sum |w| by ~2/(1-F), so cases with sampled outcomes carry no threshold detector
+    real_cats = sum(1 for p_ in preps if p_[0] == "Catstate" and p_[3].get("kw", {}).get("representation") == "real")
+    gkps = sum(1 for p_ in preps if p_[0] == "GKP")
+    sampling = real_cats == 0 and gkps <= 1 and (fock_photons == 0 or (fock_photons == 1 and gkps == 0)) and draw(st.booleans())
+    # AUDIT-FINDING real-cat-measurement-crash: when every mode is prepared as a real-representation cat state the weights are a float64
+    # array and the in-place re-weighting of any dyne / threshold measurement raises UFuncTypeError -> no measurements in that class for now
+    if real_cats == n:
+        kinds = ["msgate"]
+    elif sampling:
+        kinds = ["hom", "het", "msgate_single_shot", "hom", "het", "msgate", "hom_sel", "het_sel"]
+    else:
+        kinds = ["hom_sel", "het_sel", "thr", "msgate"]
+    units = [[o] for o in ops_]  # lists of commands that stay adjacent whatever is inserted later
+    for _ in range(draw(st.sampled_from([0, 1, 1, 2]))):
+        kind = draw(st.sampled_from(kinds))
+        m = draw(st.integers(0, n - 1))
+        # post-selected outcomes stay away from the origin: odd states (Fock(1), odd cats) have exactly zero probability density there
+        # and conditioning on an impossible outcome is outside the domain
+        sgn = draw(st.sampled_from([1.0, -1.0]))
+        if kind == "hom_sel":
+            mo = ["MeasureHomodyne", [draw(gen.angle())], [m], {"select": sgn * draw(gen.fl(0.25, 1.5)) * np.sqrt(hbar / 2)}]
+        elif kind == "het_sel":
+            mo = ["MeasureHeterodyne", [], [m], {"select": {"re": sgn * draw(gen.fl(0.2, 1.0)), "im": draw(gen.fl(-1.0, 1.0))}}]
+        elif kind == "hom":
+            mo = ["MeasureHomodyne", [draw(gen.angle())], [m], {}]
+        elif kind == "het":
+            mo = ["MeasureHeterodyne", [], [m], {}]
+        elif kind == "thr":
+            mo = ["MeasureThreshold", [], [m], {}]
+        else:
+            mo = draw(msgate_op(n, single_shot=sampling))
+            if kind == "msgate_single_shot":
+                mo[1][4] = False
+        # AUDIT-FINDING threshold-vacuum-crash (see ps_measure_ops): the detector never looks at a mode that may be in the vacuum
+        units.insert(draw(st.integers(0, len(units))), ([["Dgate", [draw(gen.fl(0.3, 1.5)), draw(gen.angle())], [m], {}]] if kind == "thr" else []) + [mo])
+    return {"n": n, "hbar": hbar, "ops": preps + [o for u in units for o in u], "seed": draw(st.integers(0, 2 ** 16))}
 
 
 def check_bng(ctx, case):
     n, ops_ = case["n"], case["ops"]
+    hbar, seed = case.get("hbar", 2.0), case.get("seed", 0)
     prev = None
+    labels = set()
+    coarse = any(o[0] == "Catstate" and len(o) > 3 and o[3].get("kw", {}).get("representation") == "real" and o[3]["kw"].get("ampl_cutoff", 0) >= 1e-2
+                 for o in ops_[:n])
+    if coarse:
+        labels.add("nongauss:coarse_real_cat")
     for k in range(n, len(ops_) + 1):
         op = ops_[k - 1]
         try:
-            st_ = sfrun.run("bosonic", n, ops_[:k], 2.0).state
+            st_ = sfrun.run("bosonic", n, ops_[:k], hbar, seed=seed).state
         except sfrun.Rejected:
             ctx.note(case, False, ["rejected:bosonic"])
             return None
         except Exception as exc:  # pylint: disable=broad-except
             return ctx.crash(exc, "bosonic." + op[0])
-        mu, V, info = sfrun.moments_of(st_, "bosonic", 2.0)
+        mu, V, info = sfrun.moments_of(st_, "bosonic", hbar)
+        if k > n and _op_label(op):
+            labels.add("nongauss:" + _op_label(op))
+        if not (np.all(np.isfinite(mu)) and np.all(np.isfinite(V)) and np.isfinite(info["wabs"])):
+            return ctx.fail("bosonic.nonfinite_state.%s" % op[0], "weights / means / covariances contain nan or inf after prefix %d" % k)
         if sfrun.weights_bad(info):
             return ctx.fail("bosonic.weights_sum.%s" % op[0], "weights sum to %r after prefix %d" % (info["wsum"], k))
-        me = float(np.min(np.linalg.eigvalsh(V + 1j * refsim.omega(n))))
-        # bosonic Fock preparations are approximations (quality parameter r=0.05): allow 1e-2
-        if me < -2e-2:
-            return ctx.fail("bosonic.uncertainty_violated.%s" % op[0], "min eig %.3g after prefix %d" % (me, k))
+        me = float(np.min(np.linalg.eigvalsh(V + 1j * hbar / 2 * refsim.omega(n)))) / (hbar / 2)
+        # bosonic Fock preparations are approximations (quality parameter r=0.05): allow 1e-2. A real-representation cat that the caller
+        # truncates at ampl_cutoff >= 1e-2 is not a state any more (min eig down to -0.5 at 0.1, -0.0095 at 1e-2 on a grid of amplitudes):
+        # only the exact statements (weights sum, conservation laws) are checked for those
+        if me < -2e-2 and not coarse:
+            return ctx.fail("bosonic.uncertainty_violated.%s" % op[0], "min eig %.3g (units of hbar/2) after prefix %d" % (me, k))
         btol = 1e-8 + 1e-12 * info["wabs"]  # huge alternating weights of the approximate Fock preparation cancel
         if prev is not None and k > n:
             if op[0] in PASSIVE:
-                a, b = total_photons(prev[0], prev[1], 2.0), total_photons(mu, V, 2.0)
+                a, b = total_photons(prev[0], prev[1], hbar), total_photons(mu, V, hbar)
                 if abs(a - b) > btol * (1 + abs(a)):
                     return ctx.fail("bosonic.photon_number_not_conserved.%s" % op[0], "%.10g -> %.10g" % (a, b))
             if op[0] == "LossChannel":
                 m, T = op[2][0], op[1][0]
-                a, b = mode_photons(prev[0], prev[1], 2.0, m), mode_photons(mu, V, 2.0, m)
+                a, b = mode_photons(prev[0], prev[1], hbar, m), mode_photons(mu, V, hbar, m)
                 if abs(b - T * a) > btol * (1 + abs(a)):
                     return ctx.fail("bosonic.loss_photon_number", "mode %d: %.10g -> %.10g expected %.10g" % (m, a, b, T * a))
         prev = (mu, V)
-    ctx.note(case, nontrivial=True, labels=["backend:bosonic", "bosonic_nongauss"] + sorted({"prep:" + o[0] + ("_opts" if (o[3] if len(o) > 3 else {}).get("kw") else "") for o in ops_[:n]}))
+    if hbar != 2.0:
+        labels.add("nongauss:hbar_not_2")
+    ctx.note(case, nontrivial=True, labels=["backend:bosonic", "bosonic_nongauss"] + sorted(labels) + sorted({"prep:" + o[0] + ("_opts" if (o[3] if len(o) > 3 else {}).get("kw") else "") for o in ops_[:n]}))
     return None
 
 
 SUBS = [
     Sub("ps_physical", check=check_ps, strategy=lambda ctx: ps_case(), examples={"quick": 250, "thorough": 2500},
-        shards={"quick": 2, "thorough": 16}, rule="gaussian + bosonic: predicates and step relations after every prefix"),
+        shards={"quick": 2, "thorough": 16}, rule="gaussian + bosonic: predicates and step relations after every prefix; alphabet + native/decomposed Gaussian, Interferometer, "
+        "GaussianTransform, PassiveChannel, MSgate, sampled / post-selected homodyne and heterodyne, threshold detection"),
     Sub("fock_physical", check=check_fock, strategy=lambda ctx: fock_case(), examples={"quick": 40, "thorough": 400},
         shards={"quick": 3, "thorough": 16}, rule="fock pure/mixed: hermitian, PSD, trace<=1 and step relations after every prefix"),
-    Sub("bosonic_nongauss", check=check_bng, strategy=lambda ctx: bng_case(), examples={"quick": 50, "thorough": 400},
-        shards={"quick": 2, "thorough": 16}, rule="bosonic with cat (both representations, truncation options) / GKP / Fock preparations: weights, total-covariance uncertainty, conservation"),
+    Sub("fock_prep_measure", check=check_fock, strategy=lambda ctx: fock2_case(), examples={"quick": 45, "thorough": 450},
+        shards={"quick": 3, "thorough": 16}, rule="fock pure/mixed: Ket / DensityMatrix on mode subsets in any order (also mid-circuit), Fock and homodyne "
+        "measurements (sampled, post-selected, several modes), cat / GKP preparations, strong gates under truncation, reduced-state requests"),
+    Sub("bosonic_nongauss", check=check_bng, strategy=lambda ctx: bng_case(), examples={"quick": 120, "thorough": 1000},
+        shards={"quick": 2, "thorough": 16}, rule="bosonic with cat (both representations, truncation options) / GKP / Fock preparations, then gates, dyne / threshold measurements "
+        "and measurement-based squeezing, three values of hbar: weights, total-covariance uncertainty, conservation"),
 ]
 
 MANIFEST = {
     "technique": "Hypothesis-generated programs, validity predicates and step invariants after every prefix (no reference needed)",
     "text": ("After every prefix of generated programs the returned state must satisfy the physicality predicates of its representation "
              "and the conservation laws that relate it to the previous prefix (unitary: purity; passive: total photon number; loss: "
-             "n' = T n + (1-T) nbar; Fock trace constant unless truncation can act)."),
+             "n' = T n + (1-T) nbar, never more photons under a lossy passive channel; Fock trace constant unless truncation can act, never "
+             "lowered by a measurement). Programs include matrix-parametrised preparations and transformations on mode subsets, measurements "
+             "with sampled and post-selected outcomes on all three simulators, Fock-basis preparations of several modes, non-Gaussian "
+             "preparations of both simulators and reduced-state requests."),
 }
